@@ -14,7 +14,7 @@ class Stream:
     name = 'stream'
     prelude = ''
     case_timeout = 120     # seconds per implementation call (SIGALRM); a time-out is an error outcome of that case
-    mem_limit_gb = 4       # address-space limit of the worker while it runs this stream's impl (None = unlimited; e2e streams spawn subprocesses)
+    mem_limit_gb = 3       # address-space limit of the worker while it runs this stream's impl (None = unlimited; e2e streams spawn subprocesses)
     shard = 400
     model = True          # False: oracle-only stream (no Coq evaluation)
     exhaustive = False
